@@ -7,7 +7,9 @@ from collections import Counter
 from . import drive, tlc
 from .core import Ctx, Result, add_violation, digest
 
-TOL_EXACT = [1, 4096]
+# exact (dyadic) families: every float32 operation of lcm is exact there, so the tolerance only has to absorb a few
+# roundings should a model leave the exact regime (2^-24 relative each); 2^-18 (1 + |v|) leaves room for 64 of them
+TOL_EXACT = [1, 1 << 18]
 TOL_INEXACT = [1, 128]
 
 
